@@ -126,6 +126,10 @@ def read_ndbc_ascii(filename, dirs=np.arange(0, 360, 10)):
         df_swr1 = read_file(filename[3])
         df_swr2 = read_file(filename[4])
         dirs = np.array(dirs)
+        if sep_freq is None:
+            # History files store r1 and r2 in hundredths (www.ndbc.noaa.gov/measdes.shtml)
+            df_swr1 = df_swr1 * 0.01
+            df_swr2 = df_swr2 * 0.01
         specdens = construct_spectra(
             specdens,
             df_swdir.values.reshape(spshape),
